@@ -918,6 +918,19 @@ class Interp:
         return v
 
     def ex_Tuple(self, e, env):
+        if any(isinstance(x, ast.Starred) for x in e.elts):
+            # (*seq, a, b) with seq of unknown length: a structured value (models.StarTuple) the contract inspects
+            vals = [(isinstance(x, ast.Starred), self.eval(x.value if isinstance(x, ast.Starred) else x, env)) for x in e.elts]
+            if any(st and hasattr(v, 'kvc_symbolic_seq') for st, v in vals):
+                from .models import StarTuple
+                return StarTuple(vals)
+            out = []
+            for st, v in vals:
+                if st:
+                    out.extend(self.iterate(v))
+                else:
+                    out.append(v)
+            return tuple(out)
         return tuple(self._elts(e.elts, env))
 
     def ex_List(self, e, env):
